@@ -237,6 +237,21 @@ PROPS = {
         real_vs_stub=L_REAL,
         assumptions=SIM_ASSUME + ["backend Save is atomic at a crash (design.rst); torn files only after an error-returning Save on non-atomic backends"],
     ),
+    "C35": dict(
+        pkg="internal/backend/retry", test="TestVerifC35", level="fault_enumeration", quick_s=30, thorough_s=600,
+        text="the real retry backend with its real back-off on the simulated clock (15-minute budget, both settings of the backend-error-redesign "
+             "feature flag, with and without flaky-error tolerance) over the simulated store on which every attempt may fail before the effect, "
+             "fail after the effect, leave a torn file (non-atomic stores), deliver part of the data, fail a listing midway or report an entry twice, "
+             "be delayed, within a fault budget of 0-8 or without end; per operation: a nil result implies exactly the error-free result (stored "
+             "bytes, bytes seen by the final consumer call, listing set, stat size, file gone), a failed Save leaves no partial file under the final "
+             "name, listings report each name at most once, permanent errors are attempted once (five times with flaky errors), errors only with faults",
+        note="fault sequences are sampled from the tape per attempt, not enumerated; cancellation is not injected here",
+        design_ref="3 / C35",
+        rule="one run = backend properties x feature flag x fault rate/budget x 1-6 operations (save/load/list/remove/stat/load of a missing file); "
+             "distinct = distinct event-log hash among runs with a fired fault",
+        real_vs_stub="real: retry.Backend, cenkalti/backoff; simulated: wrapped store, clock",
+        assumptions=SIM_ASSUME,
+    ),
     "C37": dict(
         pkg="internal/backend/sema", test="TestVerifC37", level="exploration", quick_s=25, thorough_s=600,
         text="seeded search over interleavings of concurrent Save/Load/Stat/Remove calls of all file types with Freeze/Unfreeze through the real "
